@@ -17,12 +17,13 @@ Record NumOps (A : Type) : Type := MkNumOps {
   neqb : A -> A -> bool;
   nofZ : Z -> A;
   nceil : A -> Z;          (* smallest integer >= x *)
-  nfloor : A -> Z          (* largest integer <= x *)
+  nfloor : A -> Z;         (* largest integer <= x *)
+  nfmod : A -> A -> A      (* python float %: x - y*floor(x/y), exact *)
 }.
 Arguments nadd {A} _ _ _. Arguments nsub {A} _ _ _. Arguments nmul {A} _ _ _.
 Arguments ndiv {A} _ _ _. Arguments nopp {A} _ _. Arguments nsqrt {A} _ _.
 Arguments nltb {A} _ _ _. Arguments nleb {A} _ _ _. Arguments neqb {A} _ _ _.
-Arguments nofZ {A} _ _. Arguments nceil {A} _ _. Arguments nfloor {A} _ _.
+Arguments nofZ {A} _ _. Arguments nceil {A} _ _. Arguments nfloor {A} _ _. Arguments nfmod {A} _ _ _.
 
 Declare Scope num_scope.
 Delimit Scope num_scope with num.
@@ -43,6 +44,4 @@ Section Derived.
   Definition nabs (x : A) : A := if nltb o x n0 then nopp o x else x.
   Fixpoint nsum (l : list A) : A :=
     match l with [] => n0 | x :: r => nadd o x (nsum r) end.
-  (* python float modulo for positive divisor: x - y*floor(x/y) *)
-  Definition nfmod (x y : A) : A := nsub o x (nmul o y (nofZ o (nfloor o (ndiv o x y)))).
 End Derived.
